@@ -166,19 +166,23 @@ MemPut.judge_native = _memput_judge
 
 class MemDelete(_MemBase):
     name = f"{MEM}.delete"
-    cases = ("dated", "eternal", "everything")
-    descr = "deleting a period removes exactly the entries whose period it contains; deleting without period removes all"
+    prop = _MemBase.prop + ("C02",)
+    cases = ("dated", "eternal", "everything", "dated-day-from-a-day-store", "dated-month-from-a-month-store")
+    descr = ("deleting a period removes exactly the entries whose period it contains (a year from a store of months, a day from a "
+             "store of days, a month from a store of months); deleting without period removes all")
+    UNITS = {"dated-day-from-a-day-store": ("day", "day"), "dated-month-from-a-month-store": ("month", "month")}
 
     def setup(self, I, ctx, case):
         st, look0 = self.mk(I, ctx, "eternal" if case == "eternal" else "dated")
-        return {"self": st, "period": None if case == "everything" else sym_period(I, ctx, "year"), "__look0": look0}
+        pu, qu = self.UNITS.get(case, ("year", "month"))
+        return {"self": st, "period": None if case == "everything" else sym_period(I, ctx, pu), "__look0": look0, "__qunit": qu}
 
     def post(self, I, ctx, a, out, old):
         st = a["self"]
         if out[0] != "return":
             return [("no-exception", False)]
         look = lookup_of(I, ctx, st.fields["_arrays"])
-        q = probe_period(I, ctx, "month", "q") if not st.fields["is_eternal"] else eternity(I)
+        q = probe_period(I, ctx, a.get("__qunit", "month"), "q") if not st.fields["is_eternal"] else eternity(I)
         p1, v1 = look(q)
         p0, v0 = a["__look0"](q)
         if a["period"] is None:
@@ -409,19 +413,20 @@ class DiskPutGet(_DiskBase):
 
 class DiskDelete(_DiskBase):
     name = f"{DISK}.delete"
-    cases = ("dated", "eternal", "everything")
-    descr = "deleting a period removes exactly the entries whose period it contains"
+    cases = ("dated", "eternal", "everything", "dated-day-from-a-day-store", "dated-month-from-a-month-store")
+    descr = "deleting a period removes exactly the entries whose period it contains (year / months, day / days, month / months)"
 
     def setup(self, I, ctx, case):
         st, look0 = self.mk(I, ctx, "eternal" if case == "eternal" else "dated")
-        return {"self": st, "period": None if case == "everything" else sym_period(I, ctx, "year"), "__look0": look0}
+        pu, qu = MemDelete.UNITS.get(case, ("year", "month"))
+        return {"self": st, "period": None if case == "everything" else sym_period(I, ctx, pu), "__look0": look0, "__qunit": qu}
 
     def post(self, I, ctx, a, out, old):
         st = a["self"]
         if out[0] != "return":
             return [("no-exception", False)]
         look = lookup_of(I, ctx, st.fields["_files"])
-        q = probe_period(I, ctx, "month", "q") if not st.fields["is_eternal"] else eternity(I)
+        q = probe_period(I, ctx, a.get("__qunit", "month"), "q") if not st.fields["is_eternal"] else eternity(I)
         p1, v1 = look(q)
         p0, v0 = a["__look0"](q)
         if a["period"] is None or st.fields["is_eternal"]:
